@@ -446,7 +446,7 @@ impl LLFree<'_> {
             Err(Some(Reservation { row, free, .. })) => {
                 // Sync with global tree
                 if sync {
-                    let min = (1 << order) - free;
+                    let min = (1usize << order).saturating_sub(free);
                     if let Some(free) = self.trees.sync(row.as_tree(), min) {
                         if self.locals.put(class, local, row.as_tree(), free) {
                             // retry
